@@ -74,6 +74,12 @@ class Tracer(object):
                 return bool(v)
             except Exception:
                 return None
+        # `x is None` / `x is not None` for a local last assigned a value that is certainly an object
+        if isinstance(e, ast.Compare) and len(e.ops) == 1 and isinstance(e.ops[0], (ast.Is, ast.IsNot)) and isinstance(e.left, ast.Name) \
+                and isinstance(e.comparators[0], ast.Constant) and e.comparators[0].value is None:
+            src = path.env.get('?' + e.left.id)
+            if e.left.id not in path.env and isinstance(src, (ast.List, ast.ListComp, ast.Tuple, ast.Dict, ast.Set, ast.DictComp, ast.SetComp, ast.JoinedStr, ast.BinOp)):
+                return isinstance(e.ops[0], ast.IsNot)
         t = norm(e)
         if t in path.assume:
             return path.assume[t]
@@ -149,6 +155,24 @@ class Tracer(object):
             return []
         if isinstance(s, (ast.FunctionDef, ast.ClassDef)):
             return [p]
+        if isinstance(s, ast.Assign) and len(s.targets) == 1 and isinstance(s.targets[0], ast.Name) and isinstance(s.value, ast.IfExp) \
+                and s.targets[0].id not in self.pinned:
+            # x = A if c else B : the two arms are two paths (so that a later `x is None` folds on each)
+            t = self.tri(s.value.test, p)
+            if t is None:
+                atoms = self.atoms_of(s.value.test, p)
+                if atoms:
+                    out = []
+                    for val in (True, False):
+                        q = p.fork()
+                        q.assume[norm(atoms[0])] = val
+                        out.extend(self._stmt(s, q, done))
+                    return out
+            if t is not None:
+                arm = s.value.body if t else s.value.orelse
+                s2 = ast.copy_location(ast.Assign(targets=s.targets, value=arm), s)
+                s2._parent = getattr(s, '_parent', None)
+                return self._stmt(s2, p, done)
         if isinstance(s, ast.Assign) and len(s.targets) == 1 and isinstance(s.targets[0], ast.Name):
             v = self.value(s.value, p)
             name = s.targets[0].id
